@@ -8,10 +8,10 @@ use vbase::gens::{self, DocParams};
 use vbase::refjson::{self, path_to_string, show_bytes, Kind, Node, PathElem};
 use vbase::{ensure, fail};
 
-use crate::lazyhelp::{gen_skip_stress, perturb, to_pointer};
+use crate::lazyhelp::{gen_confusable_keys, gen_skip_stress, perturb, perturb_raw, to_pointer};
 use crate::sx::{cmp_node, walk};
 
-pub const RULE: &str = "cases are (document, path) pairs: well-formed documents (generated with tricky strings, long siblings, other-kind containers, alignment prefixes; skip-stress documents with features at block edges; a positional sweep placing each string feature at every position 0..=130 of a skipped sibling; a duplicate-key subset) x every path of the reference tree (cap 64 per document) plus perturbed paths (missing key, index = len, index into object, key into array, one step too deep, empty key, key prefix/extension). Each pair goes through get over &[u8]/&str/&String/&Bytes/&FastStr, get_from_str/slice/bytes/faststr, all *_unchecked forms, Value::pointer and stepwise Value::get, LazyValue::pointer, OwnedLazyValue::pointer. Expected: the path resolves in the reference tree (first member wins) <=> Ok/Some, raw text == exact source span (pointer arithmetic for borrowing carriers), DOM subtree equal to the reference node. Non-trivial = path length >= 1 with at least one sibling skipped before the target; distinct by (document, path).";
+pub const RULE: &str = "cases are (document, path) pairs: well-formed documents (generated with tricky strings, long siblings, other-kind containers, alignment prefixes; skip-stress documents with features at block edges; a positional sweep placing each string feature at every position 0..=130 of a skipped sibling; a duplicate-key subset; shallow documents with 64..1030 tiny containers before the targets; objects whose member names are confusable between raw spelling and decoded text or share their first 16 and last 8 bytes) x every path of the reference tree (cap 64 per document) plus perturbed paths (missing key, index = len, index into object, key into array, one step too deep, empty key, key prefix/extension, the raw source spelling of an escaped member name and its prefixes ending in a backslash; for documents with more than 64 paths also the last paths in document order). Each pair goes through get over &[u8]/&str/&String/&Bytes/&FastStr, get_from_str/slice/bytes/faststr, all *_unchecked forms, Value::pointer and stepwise Value::get, LazyValue::pointer, OwnedLazyValue::pointer. Expected: the path resolves in the reference tree (first member wins) <=> Ok/Some, raw text == exact source span (pointer arithmetic for borrowing carriers), DOM subtree equal to the reference node. Non-trivial = path length >= 1 with at least one sibling skipped before the target; distinct by (document, path).";
 pub const ASSUMPTIONS: &[&str] = &["refjson parser / lookup (first member wins)", "unchecked variants are called on well-formed UTF-8 input only (their contract)"];
 
 fn skipped_sibling(root: &Node, p: &[PathElem]) -> bool {
@@ -95,6 +95,15 @@ pub fn oracle(doc: &[u8], obs: &mut Obs) -> Result<(), Fail> {
         if i % 3 == 0 || valid.len() < 12 {
             paths.extend(perturb(&root, p));
         }
+        if i < 24 {
+            paths.extend(perturb_raw(&root, doc, p));
+        }
+    }
+    if valid.len() >= 64 {
+        // very wide documents: the last paths matter most (everything before them is skipped)
+        if let Some(last) = root.last_paths(8) {
+            paths.extend(last);
+        }
     }
     for p in &paths {
         let want = root.lookup(p);
@@ -168,7 +177,7 @@ pub fn oracle(doc: &[u8], obs: &mut Obs) -> Result<(), Fail> {
 }
 
 pub fn subs() -> Vec<Sub<'static>> {
-    ["docs", "stress", "positional", "dup-keys", "golden"].iter().map(|n| Sub { name: n, oracle: &oracle, minimise_bytes: false }).collect()
+    ["docs", "stress", "positional", "dup-keys", "golden", "many-small", "confusable-keys", "brackets"].iter().map(|n| Sub { name: n, oracle: &oracle, minimise_bytes: false }).collect()
 }
 
 fn sub(name: &str) -> Sub<'static> {
@@ -185,6 +194,10 @@ pub fn run(ctx: &Ctx) {
     ctx.search(&sub("stress"), "skip-stress", ctx.n(60_000, 800_000), 600, &move |src: &mut Src| gen_skip_stress(src, &pc));
     let pc = DocParams { dup_keys: true, ..p.clone() };
     ctx.search(&sub("dup-keys"), "dup", ctx.n(20_000, 200_000), 400, &move |src: &mut Src| gens::gen_container_doc(src, &pc));
+
+    ctx.search(&sub("many-small"), "many-small", ctx.n(1_500, 30_000), 200, &|src: &mut Src| gens::gen_many_small(src));
+    ctx.search(&sub("brackets"), "bracket-stress", ctx.n(30_000, 400_000), 300, &|src: &mut Src| crate::lazyhelp::gen_bracket_stress(src));
+    ctx.search(&sub("confusable-keys"), "confusable", ctx.n(20_000, 300_000), 200, &|src: &mut Src| gen_confusable_keys(src));
 
     // positional sweep: a feature at every position of a skipped sibling string
     let quick = ctx.quick();
